@@ -171,6 +171,43 @@ theorem liftExcept_ok {α : Type} {x : Except String α} {h g : Heap} {a : α} (
   | ok v => simp only [Pure.pure, M.pure] at e; cases e; rfl
   | error s => simp only [SpyneModel.Derive.fail] at e; cases e
 
+/-- registering a subclass changes nobody's fields, original, type name or family -/
+theorem regSub_keeps (ext : Option Nat) (n : Nat) (g g' : Heap) (u : Unit) (hr : regSub ext n g = .ok g' u)
+    (c : Nat) (cl : Cls) (hc : g.cls[c]? = some cl) :
+    ∃ cl', g'.cls[c]? = some cl' ∧ cl'.fields = cl.fields ∧ cl'.orig = cl.orig ∧ cl'.tn = cl.tn ∧ cl'.kind = cl.kind := by
+  unfold regSub at hr
+  cases ext with
+  | none =>
+    simp only [Pure.pure, M.pure] at hr
+    cases hr
+    exact ⟨cl, hc, rfl, rfl, rfl, rfl⟩
+  | some e =>
+    simp only [SpyneModel.Derive.updCls] at hr
+    cases hr
+    unfold Heap.updCls
+    cases he : g.cls[e]? with
+    | none => exact ⟨cl, hc, rfl, rfl, rfl, rfl⟩
+    | some ec =>
+      simp only
+      by_cases hce : e = c
+      · subst hce
+        have hlt : e < g.cls.length := by
+          rcases Nat.lt_or_ge e g.cls.length with hl | hl
+          · exact hl
+          · rw [List.getElem?_eq_none hl] at he; cases he
+        rw [hc] at he
+        cases he
+        refine ⟨{ cl with subs := some (cl.subs.getD [] ++ [n]) }, ?_, rfl, rfl, rfl, rfl⟩
+        simp [List.getElem?_set_self hlt]
+      · exact ⟨cl, by simp [List.getElem?_set_ne hce, hc], rfl, rfl, rfl, rfl⟩
+
+theorem regSubVariant_deep (F : Facts15) [d : DeepCopy F] (ext : Option Nat) (n : Nat) (h : Heap) :
+    regSubVariant F ext n h = .ok h () := by
+  unfold regSubVariant
+  have hb : (F.subsRule == SubsRule.alsoVariants) = false := by rw [d.subsClasses]; rfl
+  rw [hb]
+  rfl
+
 /-- the class a class statement creates -/
 theorem subclassOp_result (F : Facts15) (base : Option Nat) (name : String) (ns : Option String)
     (fields : List (String × Nat)) (perm : List Nat) (attrs : Option Kw) (mixins : List Nat) (asMixin : Bool)
@@ -182,8 +219,11 @@ theorem subclassOp_result (F : Facts15) (base : Option Nat) (name : String) (ns 
   unfold subclassOp at hr
   obtain ⟨g1, bc, e1, hr1⟩ := bind_ok_inv _ _ _ _ _ hr
   obtain ⟨g2, ext, e2, hr2⟩ := bind_ok_inv _ _ _ _ _ hr1
+  unfold subclassRest at hr2
   obtain ⟨g3, h0, e3, hr3⟩ := bind_ok_inv _ _ _ _ _ hr2
   obtain ⟨g4, u4, e4, hr4⟩ := bind_ok_inv _ _ _ _ _ hr3
+  obtain ⟨g5, n5, e5, hr5⟩ := bind_ok_inv _ _ _ _ _ hr4
+  obtain ⟨g6, u6, e6, hr6⟩ := bind_ok_inv _ _ _ _ _ hr5
   have hg1 : g1 = h := by
     simp only [SpyneModel.Derive.getCls] at e1
     split at e1
@@ -193,9 +233,14 @@ theorem subclassOp_result (F : Facts15) (base : Option Nat) (name : String) (ns 
   obtain ⟨hg3, hh0⟩ := getHeap_ok e3
   have hg4 := guardNone_ok e4
   subst hg4; subst hh0; subst hg3; subst hg2; subst hg1
-  simp only [SpyneModel.Derive.allocBoth] at hr4
-  cases hr4
-  refine ⟨_, List.getElem?_concat_length, ?_, ?_, ?_, ?_⟩ <;> rfl
+  simp only [SpyneModel.Derive.allocBoth] at e5
+  cases e5
+  simp only [Pure.pure, M.pure] at hr6
+  have hh : g6 = h' ∧ g4.cls.length = id := by cases hr6; exact ⟨rfl, rfl⟩
+  obtain ⟨hh1, hh2⟩ := hh
+  subst hh1; subst hh2
+  obtain ⟨cl', c1, c2, c3, c4, c5⟩ := regSub_keeps ext _ _ _ u6 e6 g4.cls.length _ List.getElem?_concat_length
+  exact ⟨cl', c1, by rw [c2], by rw [c3], by rw [c4], by rw [c5]⟩
 
 
 /-- what `newVariant` leaves behind: the new class record and the public part of its fresh `Attributes` -/
@@ -276,7 +321,11 @@ theorem custComplex_exact (F : Facts15) [DeepCopy F] (fuel src : Nat) (kw : Kw) 
   obtain ⟨hv, an, e5, hr5⟩ := bind_ok_inv _ _ _ _ _ hr4
   obtain ⟨a, n⟩ := an
   obtain ⟨ha, hn, hcls, hpub, hext⟩ := newVariant_result F sc' src ext kw g4 hv a n e5
-  obtain ⟨g6, u6, e6, hr6⟩ := bind_ok_inv _ _ _ _ _ hr5
+  obtain ⟨g5', u5', e5', hr5'⟩ := bind_ok_inv _ _ _ _ _ hr5
+  rw [regSubVariant_deep] at e5'
+  have hg5' : hv = g5' := by cases e5'; rfl
+  subst hg5'
+  obtain ⟨g6, u6, e6, hr6⟩ := bind_ok_inv _ _ _ _ _ hr5'
   obtain ⟨g7, u7, e7, hr7⟩ := bind_ok_inv _ _ _ _ _ hr6
   simp only [Pure.pure, M.pure] at hr7
   have hh : g7 = h' ∧ n = id := by cases hr7; exact ⟨rfl, rfl⟩
